@@ -11,6 +11,16 @@ CLAIMED = {
             "Each generated module (1-3 evaluations on one Module, embedder set()/extra_value in between) is run under 5-8 seeded GC decision sequences chosen at every safepoint the evaluator offers; every arena a collection leaves behind is poisoned (and usually quarantined) so a missed root is a deterministic failure; the transcript (incl. error text, host-side reads, frozen exports) must equal the never-collect run byte for byte. Seeded sampling of programs x schedules, not a proof.",
             "Trusts: collections only happen at PossibleGc safepoints (the decider hook performs the evaluator's own collection); the poison word makes any stale read fail or differ; generator bias is made visible by probes in the evidence.",
             "DESIGN.md §6 C03"),
+    "C07": ("fault_enumeration",
+            "deterministic simulation: failure-point enumeration over evaluation histories on one evaluator/module (f-th dynamic fault() invocation fails, natural and ill-typed failures), oracles on error location, call stack, prefix transcripts, probe program and evaluator re-use",
+            "Histories of 2-7 evaluations (eval_module/eval_function) on one Module are replayed with the f-th dynamic fault() invocation failing for enumerated f (all of them when few, a seeded sample otherwise), plus naturally failing and ill-typed programs drawn from an extreme-value catalogue. After every failure: no panic/crash, the error's span and call-stack locations lie inside an involved file on char boundaries, the failing transcript is a prefix of the fault-free one, call_stack_count()==0, an unrelated probe program gives the fresh-evaluator transcript, Module::names/get/freeze/load do not panic, and the rest of the history is identical with a re-used and with a fresh evaluator.",
+            "The 'every builtin x every argument tuple' part of C07 is sampled only (ill-typed mode), not enumerated - it is a pure-input dimension; what is decided is the history/failure-point dimension. Reference for state after failure is the same history with a fresh evaluator per evaluation.",
+            "DESIGN.md §6 C07"),
+    "C12": ("fault_enumeration",
+            "deterministic simulation: complete enumeration of the lock catalogue (container x construct x mutation x alias x exit-by-fault at iteration i) against a lock-count model and a never-iterated reference",
+            "The finite catalogue container kind x iterating construct x mutating operation x alias x way of leaving (exhaustion, break, return, continue, injected fault / failing mutation / cancellation / tick budget / depth overflow / natural error at iteration i, failing eager consumer) is enumerated completely by thorough (quick: a seeded eighth). While the construct is active the mutation must fail and leave the container intact; once it has been left - in the same evaluation or, after an error caught by the host, in the next evaluation on the same module - the mutation must succeed and give what it gives on a never-iterated container.",
+            "Exhaustive within the stated catalogue only (17.6k cells); constructs or mutators outside the catalogue are not covered. The reference is the real implementation on a never-iterated container.",
+            "DESIGN.md §6 C12"),
 }
 
 NOT_APPLICABLE = {
@@ -28,9 +38,7 @@ NOT_APPLICABLE = {
 # Properties planned (DESIGN.md) but whose check is not built yet: listed as not claimed *yet*.
 PENDING = {
     "C04": "claimed in DESIGN.md but its check is not built yet in this commit; not claimed until it is",
-    "C07": "claimed in DESIGN.md but its check is not built yet in this commit; not claimed until it is",
     "C11": "claimed in DESIGN.md but its check is not built yet in this commit; not claimed until it is",
-    "C12": "claimed in DESIGN.md but its check is not built yet in this commit; not claimed until it is",
     "C13": "claimed in DESIGN.md but its check is not built yet in this commit; not claimed until it is",
     "C14": "claimed in DESIGN.md but its check is not built yet in this commit; not claimed until it is",
     "C15": "claimed in DESIGN.md but its check is not built yet in this commit; not claimed until it is",
